@@ -697,6 +697,7 @@ def _work(item: typing.Tuple[int, typing.List[typing.Tuple[str, str, str]]]) -> 
     shutil.rmtree(work, ignore_errors=True)
     t1 = os.times()
     res["cpu"] = sum(t1[:4]) - sum(t0[:4])
+    res["lang"] = cfgs[0][0]
     return res
 
 
@@ -739,7 +740,7 @@ def run(ctx: Ctx) -> int:
             if cfg.lang not in c.get("langs", ["c", "cpp", "py"]):
                 continue
             space += 1
-            if ctx.thorough or cfg.key in CORE_CFGS or c.get("core_all") or ctx.in_slice(f"{c['id']}|{cfg.key}"):
+            if ctx.thorough or (cfg.key in CORE_CFGS and c.get("quick_core", True)) or c.get("core_all") or ctx.in_slice(f"{c['id']}|{cfg.key}"):
                 per_lang.setdefault((cfg.lang, cfg.std), []).append(tuple(cfg))
         items += [(i, v) for v in per_lang.values()]
     used = sorted({c for _, v in items for c in v})
@@ -758,6 +759,7 @@ def run(ctx: Ctx) -> int:
     markers: typing.Set[str] = set()
     externals: typing.Set[str] = set()
     notes: typing.Set[str] = set()
+    cpu_by_lang: typing.Dict[str, float] = {}
     tot = dict(evals=0, units=0, bisect_runs=0, failing_units=0, headers=0, cpu=0.0)
     for r in results:
         findings += r["findings"]
@@ -770,6 +772,7 @@ def run(ctx: Ctx) -> int:
             tot[k] += r[k]
         for c in r["caps"]:
             ctx.cap(c)
+        cpu_by_lang[r["lang"]] = round(cpu_by_lang.get(r["lang"], 0.0) + r["cpu"], 1)
         for cid, cfg in r["explored"]:
             explored.setdefault((cid, cfg.lang, cfg.ser), set()).add(cfg.std)
 
@@ -837,6 +840,7 @@ def run(ctx: Ctx) -> int:
         failing_units=tot["failing_units"],
         bisect_evaluations=tot["bisect_runs"],
         cpu_seconds_workers=round(tot["cpu"], 1),
+        cpu_seconds_by_language=cpu_by_lang,
         markers=sorted(markers),
         outcomes=sorted(outcomes),
         external_references_not_judged=sorted(externals),
@@ -852,7 +856,7 @@ def run(ctx: Ctx) -> int:
         "handed to a compiler/interpreter (every one stems from a namespace case of vf.nsspace; the control type is not counted)",
         "bound_completed": f"{tot['units']}/{space} (case x language x standard x serialization) units over {len(cases)} namespace cases "
         f"({info['members']} members; names: {info['accepted']['attr']} of {info['alphabet_raw']} accepted by PyDSDL x 8 attribute kinds + type + nested + root position); "
-        + ("gcc 12 and clang 14" if ctx.thorough else "gcc 12; core = every case x {C, C++14, Python} with serialization enabled + all configurations of the core_all cases + seed slice 1/16 of the rest"),
+        + ("gcc 12 and clang 14" if ctx.thorough else "gcc 12; core = every case (except type/namespace-name batches made of Python builtins only) x {C, C++14, Python} with serialization enabled + all configurations of the core_all cases; + seed slice 1/16 of the rest"),
         "exhaustive": bool(ctx.thorough),
     }
     return ctx.finish(
